@@ -63,6 +63,16 @@ func genRules(t *rapid.T, tier string) (*World, any) {
 		for i := 0; i < 6; i++ {
 			opts.Between = append(opts.Between, drawInt(t, 0, 2, "between"))
 		}
+		if chance(t, 30, "inchain") {
+			for i := 0; i < 24; i++ {
+				v := 0
+				if chance(t, 30, "inchain-here") {
+					v = 1
+				}
+				opts.InChain = append(opts.InChain, v)
+			}
+			feat["comment-inside-chain"] = true
+		}
 		opts.Tabs = chance(t, 20, "tabs")
 		feat["line-variety"] = true
 	}
@@ -150,7 +160,12 @@ func genRules(t *rapid.T, tier string) (*World, any) {
 			arg = fmt.Sprintf("%s-chain%d", id, c.link)
 		}
 		prog := drawProgram(t, ProgOpts{Spicy: true, Flags: true, PrefixSufx: chance(t, 30, "ps"), Blocks: chance(t, 30, "blk"), Includes: []string{"inc1"}, MaxLines: 6}, "prog")
-		w.Put("crs/regex-assembly/"+arg+".ra", joinLines(prog.Lines))
+		content := joinLines(prog.Lines)
+		if chance(t, 5, "bom") {
+			content = "\ufeff" + content // a byte order mark means the same to generate, update and compare
+			feat["byte-order-mark"] = true
+		}
+		w.Put("crs/regex-assembly/"+arg+".ra", content)
 		sp := rf.Spans[c.rule][c.link]
 		p.Targets = append(p.Targets, RulesTarget{Arg: arg, Rule: c.rule, Link: c.link, Start: sp[0], End: sp[1]})
 	}
